@@ -70,7 +70,7 @@ def run(tier):
                 w = lrengine.mutate(g, w, r)
             cases.append((e["tid"], lrengine.tok_items(g, e["t"], w, r), [], {}))
     dec, nbad = lrcheck.correspond(PROP, rep, c, cases, make_judge(c), "c02")
-    lrcheck.report_cert_failures(PROP, rep, c, failing, bool(rep.viol))
+    lrcheck.report_cert_failures(PROP, rep, c, failing, bool(rep.viol), make_judge(c), r)
     oks = [d for d in dec if d["kind"] == "ok"]
     distinct = len({(x[0], tuple(i[1] for i in x[1])) for x, d in zip(cases, dec) if d["kind"] == "ok" and len(d["acts"]) >= 2})
     cov = {"obligations": nobl + cobl + len(cases), "discharged": ndis + cdis + len(cases) - nbad,
